@@ -52,3 +52,21 @@ fn o02e_format_constants_compressor() {
     kani::assert(ragc_common::CONTIG_SEPARATOR == 0xFF, "O-02e: pack separator is 0xFF");
     kani::assert(ragc_common::AGC_FILE_MAJOR == 3 && ragc_common::AGC_FILE_MINOR == 0, "O-02e: archive format version 3.0");
 }
+
+//@ obligation: O-18p
+//@ props: C18
+//@ kind: complete
+//@ functions: agc_compressor::sync_token_priority
+//@ claim: the queue priority of a sync token, sync_token_priority(p) = p + SYNC_TOKEN_PRIORITY_BOOST, cannot overflow for EVERY sample priority the compressor hands out (priorities start at FIRST_SAMPLE_PRIORITY and only count down), lies strictly above p (the token is queued in front of its sample's contigs), and the first sample's token still fits in i32; all i32 values (loop-free, full domain)
+//@ assumes: priorities only count down from FIRST_SAMPLE_PRIORITY (the decrements are inline in the threaded push and not under contract); underflow after 2^31 decrements is not considered
+#[kani::proof]
+fn o18p_sync_token_priority_no_overflow() {
+    let p: i32 = kani::any();
+    kani::assume(p <= FIRST_SAMPLE_PRIORITY);
+    kani::cover!(p == FIRST_SAMPLE_PRIORITY, "the first sample's priority is reachable");
+    let t = sync_token_priority(p);
+    kani::assert(t as i64 == p as i64 + 1_000_000, "O-18p: the boost is exact (no wrap)");
+    kani::assert(t > p, "O-18p: a sync token outranks the contigs of its sample");
+    kani::assert(SYNC_TOKEN_PRIORITY_BOOST == 1_000_000, "O-18p: boost constant");
+    kani::assert(FIRST_SAMPLE_PRIORITY as i64 + SYNC_TOKEN_PRIORITY_BOOST as i64 <= i32::MAX as i64, "O-18p: the first sample leaves room for the boost");
+}
